@@ -206,6 +206,42 @@ def huge_history(rng, kind):
     return valid_history(rng, kind, ncalls, allow=allow, **over)
 
 
+def integer_product_history(rng, kind):
+    """Boundary class of every floor/ceil in the size computations: chunk * ratio (fixed input) resp.
+    chunk / ratio (fixed output) is an INTEGER in exact arithmetic although the ratio is not exactly
+    representable in binary (7/10 x 170 = 119: the f64 product may come out one ulp low or high), with the
+    integer a few frames below or above a power of two (where adding a margin crosses a binade)."""
+    from math import gcd
+    for _ in range(200):
+        q = rng.choice([3, 5, 6, 7, 9, 10, 11, 12, 13, 20, 25, 100, 147])
+        pn = rng.choice([x for x in range(1, 4 * q) if gcd(x, q) == 1 and Fraction(1, 4) <= Fraction(x, q) <= 4])
+        r = Fraction(pn, q)
+        k = rng.randrange(5, 13)
+        N = (1 << k) + rng.randrange(-12, 3)
+        mult = r.numerator if kind.endswith("In") else r.denominator     # N must be a multiple of it
+        N -= N % mult
+        if N <= 0:
+            continue
+        chunk = N // mult * (r.denominator if kind.endswith("In") else r.numerator)
+        if 1 <= chunk <= 8192:
+            break
+    else:
+        r, chunk = Fraction(7, 10), 170
+    over = {"chunk": chunk, "ch": 1}
+    setfirst = rng.random() < 0.3
+    if setfirst:
+        orig = rng.choice([Fraction(1), r * 2, r / 2, Fraction(3, 2)])
+        over.update({"r": rj(orig), "maxrel": rj(Fraction(4))})
+    else:
+        over.update({"r": rj(r), "maxrel": rj(rng.choice([Fraction(1), Fraction(2)]))})
+    if kind.startswith("Sinc"):
+        over.update({"L": rng.choice([8, 16, 64]), "F": rng.choice([2, 16, 128])})
+    h = valid_history(rng, kind, rng.randrange(3, 8), allow=("via",), **over)
+    if setfirst and 1 <= r.numerator < 1024 and r.denominator < 1024 and Fraction(1, 4) <= r / frac_of(h[0]["r"]) <= 4:
+        h.insert(1, {"op": "set_ratio", "id": 0, "x": rj(r), "ramp": False, "rel": False})
+    return h
+
+
 BAD_SHAPES = [
     {"in_ch": -1}, {"in_ch": 1}, {"out_ch": -1}, {"out_ch": 1}, {"mask_len": -1}, {"mask_len": 1},
     {"in_ch": -100}, {"out_ch": -100}, {"mask_len": -100},
